@@ -12,16 +12,21 @@ Driver for property C13.  One history per line, one answer per line.
             o<c>,<n>     GetNameOwner(n) by c
             l<c>,<n>     ListQueuedOwners(n) by c
             x<c>[,<k>]   other traffic of c through the bus (kind k is the harness's business)
+            u<c>,<dest>[,<t>]  c sends a message (type t: the harness's business) addressed to <dest>
+            g<c>,<dest>  GetNameOwner(<dest>) by c, any name
+              <dest>:  k<j> the unique name ":1.j"   n<i> well-known name i   f<i> another colon name
     answer: one field per step, joined by " | ":   <events>#<Bus.busNames>#<clients' busNames>
       events (in the order sent), joined by ",", "-" when none:
             A<to>:<n> NameAcquired   L<to>:<n> NameLost   B<n>:<old>:<new> NameOwnerChanged broadcast
             r<to>:<code>   o<to>:<owner>   l<to>:<c.c.c>   e<to>:NameHasNoOwner
+            D<j> the addressed message is written to connection j (only)   D- to nobody (`routerLookup`)
       Bus.busNames sorted by name:  <n>=<c.c.c>;...      clients sorted by id: <c>=<n>:<0|1>,...;...
       a step on which Python raises prints ERR:<key|index|attr>; later steps print "!".
   t <op> <op> ...      as `h`, but only the field of the LAST step is printed
   s <op> <op> ...      the same history on the specification (`Txdbus.Bus.Spec.run`, deterministic
                        instance: a replaced owner leaves the queue): per step <events>#<queues>
-                       (no NameOwnerChanged in the events)
+                       (no NameOwnerChanged in the events); `u` / `g` steps print the owner of the
+                       destination according to `Spec.State.ownerOf`
   f <a> <r> <d> <e> <code>   client side: flag word of requestBusName(a, r, d), on_result(code) with
                        errbackUnlessAcquired = e, reason class of FailedToAcquireName(code)
                        -> <flags> <ok:code|raise:code> <class>
@@ -46,6 +51,26 @@ def parseOp (w : String) : Option Op :=
     | [a], 'x' => do pure (.other (← nat? a))
     | _, _ => none
   | [] => none
+
+def parseDest (w : String) : Option Dest :=
+  match w.toList with
+  | 'k' :: r => (nat? (String.ofList r)).map .unique
+  | 'n' :: r => (nat? (String.ofList r)).map .wellKnown
+  | 'f' :: r => (nat? (String.ofList r)).map (fun _ => .foreign)
+  | _ => none
+
+def parseHStep (w : String) : Option HStep :=
+  match w.toList with
+  | 'u' :: r =>
+    match (String.ofList r).splitOn "," with
+    | [a, d] => do pure (.send (← nat? a) (← parseDest d))
+    | [a, d, _] => do pure (.send (← nat? a) (← parseDest d))
+    | _ => none
+  | 'g' :: r =>
+    match (String.ofList r).splitOn "," with
+    | [a, d] => do pure (.ask (← nat? a) (← parseDest d))
+    | _ => none
+  | _ => (parseOp w).map .op
 
 def showConns (q : List Conn) : String := String.intercalate "." (q.map toString)
 
@@ -82,12 +107,17 @@ def showErr : Err → String
   | .index => "ERR:index"
   | .attr => "ERR:attr"
 
-def runHistory (s : State) : List Op → List String
+def showOut : HOut → String
+  | .events evs => showEvents evs
+  | .delivered (some j) => s!"D{j}"
+  | .delivered none => "D-"
+
+def runHistory (s : State) : List HStep → List String
   | [] => []
   | op :: ops =>
-    match step s op with
+    match stepL s op with
     | .error e => showErr e :: ops.map (fun _ => "!")
-    | .ok (s1, evs) => (showEvents evs ++ "#" ++ showState s1) :: runHistory s1 ops
+    | .ok (s1, o) => (showOut o ++ "#" ++ showState s1) :: runHistory s1 ops
 
 /-- The names a history mentions (the spec state is a function; only these are printed). -/
 def opName : Op → List Name
@@ -109,15 +139,26 @@ def showSpecEvent : Spec.Ev → String
   | .replyQueue t q => s!"l{t}:{showConns q}"
   | .replyNoOwner t => s!"e{t}:NameHasNoOwner"
 
-def runSpec (names : List Name) (fresh : Conn) (σ : Spec.State) : List Op → List String
+def runSpec (names : List Name) (fresh : Conn) (σ : Spec.State) : List HStep → List String
   | [] => []
-  | op :: ops =>
+  | .op op :: ops =>
     match Spec.exec names fresh σ op with
     | none => "REFUSED" :: ops.map (fun _ => "!")
     | some (σ1, evs) =>
       ((if evs.isEmpty then "-" else String.intercalate "," (evs.map showSpecEvent))
         ++ "#" ++ showSpecState names σ1)
         :: runSpec names (if op = Op.connect then fresh + 1 else fresh) σ1 ops
+  | .send _ d :: ops =>        -- who owns the destination at this moment (`Spec.State.ownerOf`)
+    ((match σ.ownerOf d with | some j => s!"D{j}" | none => "D-") ++ "#" ++ showSpecState names σ)
+      :: runSpec names fresh σ ops
+  | .ask c d :: ops =>
+    (showSpecEvent (Spec.ownerOfAnswer σ c d) ++ "#" ++ showSpecState names σ) :: runSpec names fresh σ ops
+
+def hstepName : HStep → List Name
+  | .op o => opName o
+  | .send _ (.wellKnown n) => [n]
+  | .ask _ (.wellKnown n) => [n]
+  | _ => []
 
 def bool? (w : String) : Option Bool :=
   if w == "1" then some true else if w == "0" then some false else none
@@ -126,18 +167,18 @@ def step (_ : Unit) (line : String) : Unit × String :=
   let out : String :=
     match Driver.words line with
     | "h" :: ws =>
-      match ws.mapM parseOp with
+      match ws.mapM parseHStep with
       | none => "bad-input"
       | some ops => String.intercalate " | " (runHistory State.init ops)
     | "t" :: ws =>
-      match ws.mapM parseOp with
+      match ws.mapM parseHStep with
       | none => "bad-input"
       | some ops => ((runHistory State.init ops).getLast?).getD "empty"
     | "s" :: ws =>
-      match ws.mapM parseOp with
+      match ws.mapM parseHStep with
       | none => "bad-input"
       | some ops =>
-        let names := sortBy id ((ops.flatMap opName).eraseDups)
+        let names := sortBy id ((ops.flatMap hstepName).eraseDups)
         String.intercalate " | " (runSpec names 1 Spec.State.init ops)
     | ["f", a, r, d, e, code] =>
       match bool? a, bool? r, bool? d, bool? e, nat? code with
